@@ -33,7 +33,10 @@ EXPLANATION = (
     "never derived from a constructor parameter and is not read by `space` is cross-step memory and must be stored by "
     "observe; R9.7 a scenario option (a name declared by an observation ConfigSchema) travels to the leaf that consults it "
     "only through like-named hops - inheritance blocks `if child.f is None: child.f = parent.f`, child-config stores, "
-    "constructor keywords, `self.f = f` - so a hop joining two different declared options is reported. NOT decided: numerical equality of every leaf with the simulator's attribute at every step (needs "
+    "constructor keywords, `self.f = f` - so a hop joining two different declared options is reported; R9.6 also requires the "
+    "store on every path that returns a freshly built observation; R9.8 inside a loop of observe() a local assigned under a "
+    "condition is re-initialised in the body before it is read (no value carried over from another iteration); R9.9 = C14's "
+    "R14.1 (only scans write the visible health fields) applied here. NOT decided: numerical equality of every leaf with the simulator's attribute at every step (needs "
     "execution), whether describe_state is called after all of the step's effects, and the contents of untyped "
     "dictionaries (NetworkInterface.traffic / nmne) below their top-level key."
 )
@@ -617,7 +620,45 @@ def r9_6(ctx: Ctx, om: ObsModel) -> None:
             key = ctx.key(m.observe_fn, f"memory self.{a} is updated by observe")
             init_val = [unparse(v)[:40] for c, v, fn in m.attr_values.get(f"self.{a}", []) if fn is m.init_fn and v is not None]
             if a in stored:
-                ctx.ok("R9.6", key, m.observe_fn.loc(node), f"{m.cls.short}: self.{a} (initialised to {init_val}) feeds a leaf and is stored by observe")
+                # ... and on every path that returns a freshly built observation (an early return before the bookkeeping leaves the
+                # remembered value behind)
+                g_ = CFG(m.observe_fn.node)
+                sts = {x.id for x in g_.nodes if x.kind == "stmt" and isinstance(x.ast, (ast.Assign, ast.AnnAssign)) and any(
+                    isinstance(t, ast.Attribute) and t.attr == a and isinstance(t.value, ast.Name) and t.value.id == "self"
+                    for t in (x.ast.targets if isinstance(x.ast, ast.Assign) else [x.ast.target]))}
+                rets_ = [x for x in g_.nodes if x.kind == "stmt" and isinstance(x.ast, ast.Return) and x.ast.value is not None
+                         and unparse(x.ast.value) != "self.default_observation"]
+                # only for an instance that reads the memory at all: the configuration conditions (tests of plain self attributes)
+                # under which a read of self.<a> happens must be able to hold on the store-less path too
+                reads_ = [x for x in g_.nodes if x.kind in ("stmt", "cond") and x.expr_root() is not None and any(
+                    isinstance(y, ast.Attribute) and y.attr == a and isinstance(y.ctx, ast.Load) and isinstance(y.value, ast.Name) and y.value.id == "self"
+                    for y in ast.walk(x.expr_root()))]
+
+                def cfg_atom(e):
+                    if not (e.label and e.label[0] == "cond"):
+                        return None
+                    t = unparse(e.label[1])
+                    names = {y.id for y in ast.walk(e.label[1]) if isinstance(y, ast.Name)}
+                    return (t, bool(e.label[2])) if names <= {"self"} and "self." in t and "(" not in t else None
+
+                p_ = None
+                for rd in reads_ or [None]:
+                    need = {}
+                    if rd is not None:
+                        for e in g_.edges():
+                            ca = cfg_atom(e)
+                            if ca and g_.path_avoiding([rd], lambda x, ee=e: x is ee) is None:
+                                need[ca[0]] = ca[1]
+                    p_ = g_.path_avoiding(rets_, lambda e: (lambda ca: ca is not None and ca[0] in need and need[ca[0]] != ca[1])(cfg_atom(e)),
+                                          blocked_nodes=sts) if sts and rets_ else None
+                    if p_ is not None:
+                        break
+                if p_ is None:
+                    ctx.ok("R9.6", key, m.observe_fn.loc(node), f"{m.cls.short}: self.{a} (initialised to {init_val}) feeds a leaf and is stored by observe on every path that returns a built observation")
+                else:
+                    ctx.fail("R9.6", key, m.observe_fn.loc(node),
+                             f"{m.cls.short}: observe can return a freshly built observation without storing self.{a}: on that path the value "
+                             f"remembered for later steps is not refreshed", cfg_path_text(p_))
             else:
                 ctx.fail("R9.6", key, m.observe_fn.loc(node),
                          f"{m.cls.short}: self.{a} is initialised in __init__ to {init_val}, is not configuration and is read by observe "
@@ -728,6 +769,61 @@ def r9_7(ctx: Ctx, om: ObsModel) -> None:
 
 
 
+def r9_8(ctx: Ctx, om: ObsModel) -> None:
+    """Per-iteration freshness: inside a loop of an observation function, a local that the body assigns under a condition and reads
+    afterwards must also be (re)initialised in the body before that read on every path - otherwise an iteration in which the condition
+    is false shows the value left by an earlier iteration (another port's traffic, another rule's field)."""
+    ctx.rule("R9.8", "no loop-carried stale value in observe(): a local assigned conditionally in a loop body is re-initialised in the "
+                     "body on every path before it is read")
+    n = 0
+    for m in _models(om):
+        fn = m.observe_fn
+        if fn is None or isinstance(fn.node, ast.Lambda):
+            continue
+        loops = [x for x in ast.walk(fn.node) if isinstance(x, (ast.For, ast.While))]
+        if not loops:
+            continue
+        g = CFG(fn.node)
+        for loop in loops:
+            head = next((x for x in g.nodes if x.ast is loop and x.kind in ("for", "cond")), None)
+            if head is None:
+                continue
+            body_nodes = [x for x in g.nodes if loop in x.loops and x is not head]
+            stores: Dict[str, List[CNode]] = {}
+            for x in body_nodes:
+                if x.kind == "stmt" and isinstance(x.ast, (ast.Assign, ast.AnnAssign, ast.AugAssign)):
+                    for t in ast.walk(x.ast):
+                        if isinstance(t, ast.Name) and isinstance(t.ctx, ast.Store):
+                            stores.setdefault(t.id, []).append(x)
+            tnames = {t.id for t in ast.walk(loop.target) if isinstance(t, ast.Name)} if isinstance(loop, ast.For) else set()
+            for nm, sts in sorted(stores.items()):
+                if nm in tnames:
+                    continue
+                starts = [e.dst for e in g.succ[head.id] if e.label and ((e.label[0] == "iter" and e.label[2]) or (e.label[0] == "cond" and e.label[2]))]
+                reads = [x for x in body_nodes if x.expr_root() is not None and any(
+                    isinstance(y, ast.Name) and y.id == nm and isinstance(y.ctx, ast.Load) for y in ast.walk(x.expr_root()))
+                    and not (isinstance(x.ast, ast.AugAssign) and isinstance(x.ast.target, ast.Name) and x.ast.target.id == nm)]
+                if not reads or not starts:
+                    continue
+                n += 1
+                blocked = {x.id for x in sts}
+                wit = None
+                for st in starts:
+                    if st.id in blocked:
+                        continue
+                    wit = g.path_avoiding([r for r in reads if r.id not in blocked], lambda e: False, start=st, blocked_nodes=blocked | {head.id})
+                    if wit is None and st in reads and st.id not in blocked:
+                        wit = []
+                    if wit is not None:
+                        break
+                ctx.record("R9.8", ctx.key(fn, f"`{nm}` is fresh in every iteration of the loop at line {loop.lineno}"), fn.loc(loop), wit is None,
+                           f"every read of `{nm}` in the body follows a store of it in the same iteration" if wit is None else
+                           f"`{nm}` is assigned only on some paths of the loop body and read on a path without any assignment in that iteration: "
+                           f"the value of an earlier iteration is shown", cfg_path_text(wit) if wit else None)
+    ctx.floor("R9.8", "loop-local variables inspected", n, 3)
+
+
+
 def check(ctx: Ctx) -> None:
     om = ObsModel(ctx.ix)
     ctx.count("E6:describe_state implementations", len(om.schema.impls()))
@@ -738,6 +834,11 @@ def check(ctx: Ctx) -> None:
     r9_5(ctx, om)
     r9_6(ctx, om)
     r9_7(ctx, om)
+    r9_8(ctx, om)
+    # 'the last-scanned (visible) value' is only that if nothing but a scan writes it: C14's who-may-write rule applies here too
+    from . import c14
+    with ctx.borrowed({"R14.1": "R9.9"}):
+        c14.r14_1(ctx)
     ctx.count("E6:describe_state functions evaluated", len(om.schema.evaluated))
 
 
